@@ -506,4 +506,11 @@ def getGroups (gs : List GroupInfo) (f : Filter) : Except ErrKind (List GroupInf
 def sopAcceptsNumbers (numbers : List Int) : Bool :=
   decide (numbers = (List.range numbers.length).map (fun (i : Nat) => (i : Int) + 1))
 
+/-- the constructor of the SOP class with coordinate type `ct` accepts a group built by the group constructor only when its
+graphic data is of that type (`built`: `some t` = built with type `t`, `none` = a parsed group, whose type is unknown) -/
+def sopAcceptsTypes (ct : Int) (built : List (Option Int)) : Bool :=
+  built.all (fun b => match b with
+    | none => true
+    | some t => t == ct)
+
 end HdVerif.Ann
